@@ -71,6 +71,42 @@ def slice_function(path, signature_re):
     raise BuildError("unbalanced braces slicing %s from %s" % (signature_re, path))
 
 
+C_KEYWORDS = {"if", "for", "while", "switch", "return", "sizeof", "do", "else", "case", "defined", "typeof", "__attribute__"}
+
+
+def slice_with_static_deps(path, signature_res, provided=()):
+    """slice_function() for every signature, plus - transitively - the `static` functions of the
+    same file that the sliced text calls, so that a refactoring which moves code into a new static
+    helper still builds.  `provided` = names the caller defines itself (stand-ins).  Returns the text:
+    prototypes of the pulled-in helpers, the helpers, then the requested functions."""
+    wanted = [slice_function(path, sig) for sig in signature_res]
+    have = set()
+    for t in wanted:
+        m = re.search(r"\b(\w+)\s*\(", t)
+        if m:
+            have.add(m.group(1))
+    deps = []           # (name, text) in discovery order
+    todo = list(wanted)
+    while todo:
+        text = todo.pop()
+        for name in sorted(set(re.findall(r"\b([A-Za-z_]\w*)\s*\(", text))):
+            if name in have or name in provided or name in C_KEYWORDS:
+                continue
+            try:
+                dep = slice_function(path, r"^static\s[^;{}()=]*\b%s\s*\(" % re.escape(name))
+            except BuildError:
+                continue
+            have.add(name)
+            deps.append((name, dep))
+            todo.append(dep)
+    protos = []
+    for name, dep in deps:
+        head = dep[:dep.index("{")].strip()
+        protos.append(re.sub(r"\s+", " ", head) + ";")
+    return "\n".join(protos) + ("\n\n" if protos else "") + "\n\n".join(d for _, d in deps) + \
+        ("\n\n" if deps else "") + "\n\n".join(wanted)
+
+
 def slice_lines(path, start_re, end_re):
     """Return the lines from the first match of start_re to the first later
     match of end_re (inclusive)."""
